@@ -546,7 +546,8 @@ def check_private_channels(rep, core):
                 for b3, i3, s3 in g.stmts('assign'):
                     if s3['rv']['k'] == 'agg' and s3['rv'].get('adt') == 'core::result::Result' and s3['rv']['variant'] == 'Err':
                         err_ret = True
-                for b3, t3 in g.calls('core::result::Result::map_err'):
+                for b3, t3 in g.calls('core::result::Result::map_err', 'core::option::Option::ok_or', 'core::option::Option::ok_or_else',
+                                      'core::ops::try_trait::FromResidual::from_residual'):
                     err_ret = True
             discarded = False
             for g in bodies:
